@@ -243,7 +243,9 @@ def shape_path(shape, base, i):
     if shape == "sub_space":
         return j("sub", "x y%s.wav" % n)
     if shape == "unicode":
-        return j("ü", "é%s.wav" % n)
+        # a precomposed (NFC) directory name and a decomposed (NFD, as macOS file dialogs produce) file name: path strings are
+        # stored and relocated as given, never normalised
+        return j("\u00fc", "e\u0301%s.wav" % n)
     if shape == "deep":
         return j("a", "b", "c", "d%s.wav" % n)
     if shape == "backslash":
